@@ -1050,7 +1050,7 @@ func checkNoInPlaceInput(c *Ctx, rule string) {
 					}
 				case *ast.CallExpr:
 					if builtinName(info, x) == "append" && len(x.Args) > 0 {
-						if sl, ok := ast.Unparen(x.Args[0]).(*ast.SliceExpr); ok && fromParam(sl.X) {
+						if sl, ok := ast.Unparen(x.Args[0]).(*ast.SliceExpr); ok && fromParam(sl.X) && !capLimited(sl) {
 							bad, pos = types.ExprString(x), x.Pos()
 						}
 					}
